@@ -10,14 +10,23 @@
 
 using namespace vf;
 extern "C" const vapi dflt_api;
-static Core *K_;
+#ifndef VF_FUZZ
+extern "C" const vapi extra_api;
+#endif
+static Core *K_, *KX_ = nullptr;   // KX_: the EAV_EXTRA build, where the same relations must hold
 static std::string g_case;
 
 static Case mkcase(const Bytes &a, int mask) { Case c; c.b("addr", a).i("mask", mask); return c; }
 static bool same_result(const v_outcome &x, const v_outcome &y) { return x.rc == y.rc && x.is_ipv4 == y.is_ipv4 && x.is_ipv6 == y.is_ipv6 && x.is_domain == y.is_domain; }
 
+static std::optional<Failure> check_core(Run &R, Core &K, const Bytes &a, int mask, const char *build);
 static std::optional<Failure> check_one(Run &R, const Bytes &a, int mask) {
-    Core &K = *K_; const Consts &C = K.C;
+    if (auto f = check_core(R, *K_, a, mask, "")) return f;
+    if (KX_) return check_core(R, *KX_, a, mask, "[EAV_EXTRA build] ");
+    return std::nullopt;
+}
+static std::optional<Failure> check_core(Run &R, Core &K, const Bytes &a, int mask, const char *build) {
+    const Consts &C = K.C;
     g_case = mkcase(a, mask).str();
     Facts f = facts(K.T, C, a);
     Outs o = K.run(a, mask);
@@ -27,7 +36,7 @@ static std::optional<Failure> check_one(Run &R, const Bytes &a, int mask) {
     if (nontriv) R.nontrivial(hashs(a));
     if (filtered) R.count("filtered(pure-ascii,no-quote,no-backslash)"); else R.count("unfiltered");
     for (int t = 0; t < 2; t++) {
-        std::string where = "tld_check=" + std::to_string(t) + " address '" + show(a) + "'";
+        std::string where = std::string(build) + "tld_check=" + std::to_string(t) + " address '" + show(a) + "'";
         if (filtered) {
             const v_outcome &b = o.obj[0][t];
             for (int m = 1; m < 4; m++) {
@@ -78,13 +87,13 @@ static void stage_bounded(Run &R) {
 // structured pure-ASCII addresses: every atext / special / control byte in the local part x domain shapes
 static void stage_bytes(Run &R) {
     uint64_t idx = 0, total = 0; int dm = K_->default_mask();
-    static const char *DOMS[] = {"ok.com", "b.example.org", "x", "x.zzunlisted", "[1.2.3.4]", "[IPv6:::1]", "a-.com", "1.2", "-a.com", "a..com", "localhost", "x.abarth", "xn--p1ai.com", "ab--c.com", "xn--zz.com", "a_b.com", "[1.2.3]", "A.RU."};
+    static const char *DOMS[] = {"ok.com", "b.example.org", "x", "x.zzunlisted", "[1.2.3.4]", "[IPv6:::1]", "a-.com", "1.2", "-a.com", "a..com", "localhost", "x.abarth", "xn--p1ai.com", "ab--c.com", "xn--zz.com", "a_b.com", "example.com.", "host.localhost.", "www.test.", "iana.org.", "EXAMPLE.ORG.", "x.onion.", "[1.2.3]", "A.RU."};
     for (int x = 1; x < 128; x++) { if (x == '"' || x == '\\') continue; for (const char *d : DOMS) for (int pos = 0; pos < 3; pos++) {
         total++; if ((int) (idx++ % R.a.nworkers) != R.a.worker) continue;
         Bytes l = pos == 0 ? Bytes(1, (char) x) + "bc" : pos == 1 ? "a" + Bytes(1, (char) x) + "c" : "ab" + Bytes(1, (char) x);
         if (!run_one(R, l + "@" + d, dm)) return;
     } }
-    R.space("C12 every ASCII byte except DQUOTE/backslash at first/middle/last position of the local part x 18 domain shapes", total);
+    R.space("C12 every ASCII byte except DQUOTE/backslash at first/middle/last position of the local part x 24 domain shapes (incl. root-dotted reserved names), default and EAV_EXTRA build", total);
 }
 
 // local parts of 56..72 octets in the word shapes whose length accounting could differ per mode
@@ -146,7 +155,7 @@ static void stage_corpus(Run &R) {
 int main(int argc, char **argv) {
     return std_main(argc, argv, "C12", {{"bounded", stage_bounded}, {"bytes", stage_bytes}, {"random", stage_random}, {"corpus", stage_corpus}, {"lengths", stage_lengths}, {"switched", stage_switched}},
         [](Run &R, const Case &c) -> std::optional<Failure> { if (c.has("m1")) return check_switched(R, c.getb("addr"), (int) c.geti("m1"), (int) c.geti("m2"), c.geti("fb") != 0); return check_one(R, c.getb("addr"), (int) c.geti("mask")); }, [] { return g_case; },
-        [](Run &R) { K_ = new Core(&dflt_api); return K_->init(R.a.datadir); }, [] { delete K_; });
+        [](Run &R) { K_ = new Core(&dflt_api); KX_ = new Core(&extra_api); return K_->init(R.a.datadir) && KX_->init(R.a.datadir); }, [] { delete K_; delete KX_; });
 }
 #else
 VF_FUZZ_TARGET("C12", [](Run &R) { K_ = new Core(&dflt_api); return K_->init(R.a.datadir); },
